@@ -25,6 +25,7 @@ import (
 	"net/http/httptest"
 	"os"
 	"path/filepath"
+	"regexp"
 	"sort"
 	"strings"
 
@@ -48,12 +49,15 @@ type cell struct {
 
 var null = cell{k: '~'}
 
+// op lines are space separated and single-line: blanks inside string cells are written ^_ ^t ^n (^^ = ^)
+var escWS = strings.NewReplacer("^", "^^", " ", "^_", "\t", "^t", "\n", "^n")
+
 func (c cell) enc() string {
 	switch c.k {
 	case '~':
 		return "~"
 	case 's':
-		return "s:" + c.s
+		return "s:" + escWS.Replace(c.s)
 	default:
 		return fmt.Sprintf("%c:%d", c.k, c.n)
 	}
@@ -157,14 +161,18 @@ type pred struct {
 
 var cmpSQL = map[string]string{"eq": "=", "ne": "<>", "lt": "<", "le": "<=", "gt": ">", "ge": ">="}
 
+// wsSep separates tokens OUTSIDE string literals: " " normally, "\n\t" for pretty-printed multi-line
+// requests (same predicate, same op line).
+var wsSep = " "
+
 func (p *pred) sql() string {
 	switch p.op {
 	case "cmp":
-		return colNames[p.col] + " " + cmpSQL[p.cmp] + " " + predLit(p.lit)
+		return colNames[p.col] + wsSep + cmpSQL[p.cmp] + wsSep + predLit(p.lit)
 	case "and":
-		return "(" + p.a.sql() + ") AND (" + p.b.sql() + ")"
+		return "(" + p.a.sql() + ")" + wsSep + "AND" + wsSep + "(" + p.b.sql() + ")"
 	case "or":
-		return "(" + p.a.sql() + ") OR (" + p.b.sql() + ")"
+		return "(" + p.a.sql() + ")" + wsSep + "OR" + wsSep + "(" + p.b.sql() + ")"
 	case "not":
 		return "NOT (" + p.a.sql() + ")"
 	case "in":
@@ -237,8 +245,10 @@ func (p *pred) kinds(m map[string]bool) {
 
 const tsBase = int64(1704067200) * 1_000_000
 
-var strPool = []string{"", "a", "ab", "abc", "b", "ba", "bab", "c", "A", "aB", "a%", "a_c"}
-var likePool = []string{"%", "a%", "%b", "%a%", "_", "a_", "_b%", "a_c", "abc", "", "%%", "_%_", "A%", "a\\%"}
+var strPool = []string{"", "a", "ab", "abc", "b", "ba", "bab", "c", "A", "aB", "a%", "a_c",
+	"a b", "a  b", "a   b", "a\tb", "a\nb", " a", "a ", "  a", "a b c", "a  b c"}
+var likePool = []string{"%", "a%", "%b", "%a%", "_", "a_", "_b%", "a_c", "abc", "", "%%", "_%_", "A%", "a\\%",
+	"a %", "a  %", "a\t%", "% b", "%  b", "a__b", " %", "% ", "a b%", "a  b%"}
 
 func genCell(r *vh.Rand, kind byte, nullPct int) cell {
 	if r.Chance(nullPct) {
@@ -306,6 +316,8 @@ type env struct {
 	app    *fiber.App
 	dbName string
 	files  []string // relative paths of the current dataset (sorted)
+	junk   map[string][]byte // unreadable *.parquet files of the current dataset (fault world) -> their bytes
+	pendingJunk []junkF
 	caseNo int
 }
 
@@ -342,6 +354,38 @@ func (e *env) reset() {
 	e.caseNo++
 	e.dbName = fmt.Sprintf("db%d", e.caseNo)
 	e.files = nil
+	e.junk = map[string][]byte{}
+}
+
+func (e *env) writeJunk(j junkF) {
+	full := filepath.Join(e.root, e.dbName, meas, j.path)
+	must(os.MkdirAll(filepath.Dir(full), 0o755))
+	var b []byte
+	switch j.kind {
+	case "zero":
+	case "magic":
+		b = []byte("PAR0 this is not a parquet file, only a name ending in .parquet PAR0")
+	case "trunc":
+		tmp := full + ".src"
+		_, err := e.sqldb.Exec(fmt.Sprintf("COPY (SELECT range AS rid, 'x' AS s FROM range(50)) TO '%s' (FORMAT PARQUET)", tmp))
+		must(err)
+		full0, err := os.ReadFile(tmp)
+		must(err)
+		os.Remove(tmp)
+		b = full0[:len(full0)/2]
+	}
+	must(os.WriteFile(full, b, 0o644))
+	e.junk[j.path] = b
+}
+
+func (e *env) junkIntact() (string, bool) {
+	for p, b := range e.junk {
+		got, err := os.ReadFile(filepath.Join(e.root, e.dbName, meas, p))
+		if err != nil || string(got) != string(b) {
+			return p, false
+		}
+	}
+	return "", true
 }
 
 const meas = "m"
@@ -544,6 +588,10 @@ func delOut(status int, r delResp) string {
 
 // ---------------------------------------------------------------- one case
 
+// junkF: an unreadable file that sits in the measurement next to the healthy ones. It makes the batch
+// count query fail, so the handler takes the per-file fallback (countMatchingRowsIndividually).
+type junkF struct{ path, kind string }
+
 type addF struct {
 	path string
 	rows []row
@@ -553,6 +601,7 @@ type delReq struct {
 	dry, confirm bool
 	max, thr     int
 	p            *pred
+	pretty       bool   // the WHERE text is sent multi-line (newline/tab between tokens)
 	add          []addF // NEW parquet files (new paths) that land in the measurement before this request
 }
 
@@ -679,6 +728,16 @@ func (e *env) runCase(files map[string][]row, order []string, reqs []delReq, tag
 		canon.WriteString(op + ";")
 		replay.WriteString(op + "\n")
 	}
+	for _, j := range e.pendingJunk {
+		e.writeJunk(j)
+		op := "junk " + j.path + " " + j.kind
+		e.c.Op(op, "ok")
+		canon.WriteString(op + ";")
+		replay.WriteString(op + "   -- unreadable file (" + j.kind + ") in the measurement: the batch count fails, per-file fallback\n")
+		e.c.Tag("world:unreadable-file:" + j.kind)
+	}
+	fallback := len(e.pendingJunk) > 0
+	e.pendingJunk = nil
 	s0, _ := e.snap("")
 	e.c.Op("dump", s0.enc(e.files))
 	nontriv := false
@@ -693,6 +752,11 @@ func (e *env) runCase(files map[string][]row, order []string, reqs []delReq, tag
 			replay.WriteString(op + "   -- a new file lands in the measurement\n")
 			e.c.Tag("history:file-added-between-requests")
 			lastDry = nil // the data changed: the earlier preview is not comparable any more
+		}
+		wsSep = " "
+		if d.pretty {
+			wsSep = "\n\t"
+			e.c.Tag("del:pretty-printed-where")
 		}
 		where := d.p.sql()
 		canon.WriteString(fmt.Sprintf("del %d %d %d %d %s;", b01(d.dry), b01(d.confirm), d.max, d.thr, d.p.enc()))
@@ -710,6 +774,9 @@ func (e *env) runCase(files map[string][]row, order []string, reqs []delReq, tag
 		}
 		if nTrue > 0 {
 			nontriv = true
+		}
+		if jp, ok := e.junkIntact(); !ok {
+			e.c.Fail("unreadable-file-touched:fallback-count-path", "the unreadable file "+jp+" was modified or removed by a delete request", replay.String())
 		}
 		e.c.Tag(fmt.Sprintf("del:status=%d", status))
 		switch {
@@ -737,7 +804,18 @@ func (e *env) runCase(files map[string][]row, order []string, reqs []delReq, tag
 				e.c.Tag("del:real:has-null-rows")
 			}
 			if status == 200 && r.Success {
+				nf := len(e.c.PropFails)
 				e.monitorReal(where, r, before, pv, after, replay.String())
+				if len(e.c.PropFails) > nf {
+					// classify the failure by the world / request shape it occurred in
+					lost := total(before)-total(after) > nTrue
+					if fallback && lost {
+						e.c.Fail("non-matching-rows-lost:fallback-count-path", fmt.Sprintf("with an unreadable file in the measurement (per-file fallback scan) the delete WHERE %s removed %d rows although only %d match", where, total(before)-total(after), nTrue), replay.String())
+					}
+					if wsLiteral.MatchString(where) {
+						e.c.Fail("wrong-rows-deleted:predicate-text-altered", fmt.Sprintf("WHERE %q carries a string literal with a blank run / tab / newline / edge blank; the rows removed are not the rows DuckDB selects for that text", where), replay.String())
+					}
+				}
 				if lastDry != nil && lastDryWhere == where {
 					gone := int64(total(before) - total(after))
 					if lastDry.DeletedCount != r.DeletedCount || lastDry.DeletedCount != gone {
@@ -768,6 +846,9 @@ func (e *env) runCase(files map[string][]row, order []string, reqs []delReq, tag
 	e.c.Tag("case:" + tag)
 	e.c.Case(canon.String(), nontriv)
 }
+
+// wsLiteral: a quoted literal containing 2+ blanks in a row, a tab/newline, or a leading/trailing blank
+var wsLiteral = regexp.MustCompile(`'[^']*(  |\t|\n)[^']*'|' [^']*'|'[^']* '`)
 
 // ---------------------------------------------------------------- main
 
@@ -894,7 +975,7 @@ func main() {
 		{"edge:str-cmp", mk(row{I(1), T(0), I(1), F(5), S("a"), B(0)}, row{I(2), T(0), I(1), F(5), S("A"), B(0)}, row{I(3), T(0), I(1), F(5), S("ab"), B(1)}, row{I(4), T(0), I(1), F(5), S(""), B(1)}), &pred{op: "cmp", cmp: "le", col: 4, lit: S("a")}},
 	}
 	for _, ed := range edge {
-		e.runCase(ed.data, one, []delReq{{true, false, big, big, ed.p, nil}, {false, false, big, big, ed.p, nil}, {false, true, big, big, ed.p, nil}}, ed.tag)
+		e.runCase(ed.data, one, []delReq{{dry: true, confirm: false, max: big, thr: big, p: ed.p}, {dry: false, confirm: false, max: big, thr: big, p: ed.p}, {dry: false, confirm: true, max: big, thr: big, p: ed.p}}, ed.tag)
 	}
 	// same base name in several hour partitions; the predicate selects every row of ONE of the files
 	// (whole-file removal), of an earlier / a later / the middle one, next to a partial rewrite.
@@ -909,14 +990,14 @@ func main() {
 			}
 			order := []string{"2024/01/01/00/data.parquet", "2024/01/01/01/data.parquet", "2024/01/01/02/data.parquet", "2024/01/02/00/data.parquet"}
 			p := &pred{op: "cmp", cmp: "eq", col: 2, lit: I(sel)}
-			e.runCase(data, order, []delReq{{true, false, big, big, p, nil}, {false, true, big, big, p, nil}}, fmt.Sprintf("edge:same-basename-%d", k))
+			e.runCase(data, order, []delReq{{dry: true, confirm: false, max: big, thr: big, p: p}, {dry: false, confirm: true, max: big, thr: big, p: p}}, fmt.Sprintf("edge:same-basename-%d", k))
 		}
 	}
 	// gates: max rows, confirmation threshold
 	{
 		data := mk(r3(1, I(5)), r3(2, I(6)), r3(3, I(0)))
 		p := &pred{op: "cmp", cmp: "gt", col: 2, lit: I(1)}
-		e.runCase(data, one, []delReq{{true, false, big, 1, p, nil}, {true, true, big, 1, p, nil}, {true, true, 1, big, p, nil}, {false, true, 1, big, p, nil}, {false, true, 2, 1, p, nil}}, "edge:gates")
+		e.runCase(data, one, []delReq{{dry: true, confirm: false, max: big, thr: 1, p: p}, {dry: true, confirm: true, max: big, thr: 1, p: p}, {dry: true, confirm: true, max: 1, thr: big, p: p}, {dry: false, confirm: true, max: 1, thr: big, p: p}, {dry: false, confirm: true, max: 2, thr: 1, p: p}}, "edge:gates")
 	}
 
 	// malformed / refused requests (monitors only)
@@ -934,6 +1015,43 @@ func main() {
 			{confirm: true, max: big, thr: big, p: p, add: []addF{{"2024/01/01/02/data.parquet", []row{ri(5, 7), ri(6, 9)}}, {"2024/01/01/00/late.parquet", []row{ri(7, 7)}}}}}, "edge:preview-add-confirm")
 		// an in-place rewrite (another delete) happens between preview and confirm
 		e.runCase(data, order, []delReq{{dry: true, max: big, thr: big, p: p}, {confirm: true, max: big, thr: big, p: q}, {confirm: true, max: big, thr: big, p: p}}, "edge:preview-rewrite-confirm")
+	}
+	// string literals with blank runs, tabs, newlines, edge blanks: data holds the exact value AND its collapsed variants
+	{
+		rs := func(rid int64, v string) row { return row{I(rid), T(0), I(1), F(2), S(v), B(1)} }
+		vals := []string{"rack  7", "rack 7", "rack\t7", "rack\n7", " rack 7", "rack 7 ", "rack   7", "rack7"}
+		var rows []row
+		for k, v := range vals {
+			rows = append(rows, rs(int64(k+1), v))
+		}
+		data := func() map[string][]row { return map[string][]row{"2024/01/01/00/a.parquet": append([]row{}, rows...)} }
+		for k, p := range []*pred{
+			{op: "cmp", cmp: "eq", col: 4, lit: S("rack  7")},
+			{op: "cmp", cmp: "eq", col: 4, lit: S("rack\t7")},
+			{op: "cmp", cmp: "eq", col: 4, lit: S("rack\n7")},
+			{op: "cmp", cmp: "eq", col: 4, lit: S(" rack 7")},
+			{op: "in", col: 4, lits: []cell{S("rack   7"), S("rack 7 "), S("zz")}},
+			{op: "like", col: 4, lit: S("rack  %")},
+			{op: "like", col: 4, lit: S("rack\t_")},
+			{op: "cmp", cmp: "ne", col: 4, lit: S("rack  7")},
+		} {
+			e.runCase(data(), one, []delReq{{dry: true, max: big, thr: big, p: p}, {confirm: true, max: big, thr: big, p: p, pretty: k%2 == 1}}, fmt.Sprintf("edge:blank-literal-%d", k))
+		}
+	}
+	// fault worlds: healthy files + one unreadable *.parquet (zero-byte / wrong magic / truncated) => per-file fallback scan
+	{
+		ri := func(rid, i int64) row { return row{I(rid), T(0), I(i), F(2), S("ab"), B(1)} }
+		order := []string{"2024/01/01/00/data.parquet", "2024/01/01/01/data.parquet", "2024/01/01/03/data.parquet"}
+		for k, kind := range []string{"zero", "magic", "trunc"} {
+			data := map[string][]row{
+				order[0]: {ri(1, 7), ri(2, 8), row{I(3), T(0), null, F(2), S("ab"), B(1)}}, // partial: TRUE, FALSE, NULL
+				order[1]: {ri(4, 7), ri(5, 7)},                                                // whole file
+				order[2]: {ri(6, 9)},                                                          // unaffected
+			}
+			e.pendingJunk = []junkF{{[]string{"2024/01/01/02/data.parquet", "2024/01/01/00/broken.parquet", "2024/01/02/00/data.parquet"}[k], kind}}
+			p := &pred{op: "cmp", cmp: "eq", col: 2, lit: I(7)}
+			e.runCase(data, order, []delReq{{dry: true, max: big, thr: big, p: p}, {confirm: true, max: big, thr: big, p: p}}, "edge:unreadable-"+kind)
+		}
 	}
 	// many small files: 101–260 one-/two-row hourly files with the same base name, matches spread over the whole listing
 	{
@@ -973,6 +1091,9 @@ func main() {
 	var rid int64 = 100
 	for k := 0; k < n; k++ {
 		files, order, homog := genDataset(r, &rid)
+		if r.Chance(12) {
+			e.pendingJunk = []junkF{{fmt.Sprintf("2024/01/%02d/%02d/%s", 1+r.Intn(2), 4+r.Intn(3), vh.Pick(r, []string{"data.parquet", "zz_broken.parquet", "a0.parquet"})), vh.Pick(r, []string{"zero", "magic", "trunc"})}}
+		}
 		var reqs []delReq
 		nd := r.Range(1, 2)
 		for j := 0; j < nd; j++ {
@@ -991,7 +1112,7 @@ func main() {
 			if dryFirst {
 				reqs = append(reqs, delReq{dry: true, confirm: r.Chance(50), max: max, thr: thr, p: p})
 			}
-			real := delReq{dry: false, confirm: !r.Chance(7), max: max, thr: thr, p: p}
+			real := delReq{dry: false, confirm: !r.Chance(7), max: max, thr: thr, p: p, pretty: r.Chance(20)}
 			if r.Chance(30) {
 				// new files land (new paths) before the confirmed delete; rows are copies of stored rows with
 				// fresh rids, so they match the predicate as often as the stored ones do
